@@ -79,7 +79,7 @@ def run_goal(arg):
     return out
 
 
-def canary(budget):
+def canary(budget, with_e1=False):
     """one deliberately false obligation per engine must be refuted"""
     import z3
     from .solve import discharge, Quant
@@ -88,7 +88,22 @@ def canary(budget):
     r2 = discharge([Quant('k', z3.IntVal(0), i, lambda k: z3.Select(A, k) >= 0)], z3.Select(A, i) >= 0, budget=5)   # index i not covered
     r3 = discharge([x > 0], x * x + 1 > x, budget=5)                  # true
     ok = r1['verdict'] == 'failed' and r2['verdict'] == 'failed' and r3['verdict'] == 'proved'
-    return ok, {'false_nonlinear': r1['verdict'], 'false_quantified': r2['verdict'], 'true_nonlinear': r3['verdict']}
+    info = {'false_nonlinear': r1['verdict'], 'false_quantified': r2['verdict'], 'true_nonlinear': r3['verdict']}
+    if with_e1:
+        import tempfile, subprocess, shutil
+        wd = tempfile.mkdtemp(prefix='lpv_canary_', dir='/var/tmp')
+        try:
+            open(os.path.join(wd, 'c.c'), 'w').write('int f(int x) __CPROVER_requires(x > 0) __CPROVER_ensures(__CPROVER_return_value > 1) { return x; }\nvoid h_main(void){ int x; f(x); }\n')
+            subprocess.run(['goto-cc', '--function', 'h_main', os.path.join(wd, 'c.c'), '-o', os.path.join(wd, 'a.gb')], capture_output=True)
+            subprocess.run(['goto-instrument', '--dfcc', 'h_main', '--enforce-contract', 'f', os.path.join(wd, 'a.gb'), os.path.join(wd, 'b.gb')], capture_output=True)
+            r = subprocess.run(['cbmc', os.path.join(wd, 'b.gb'), '--sat-solver', 'cadical'], capture_output=True, text=True, timeout=60)
+            info['e1_false_postcondition'] = 'failed' if 'VERIFICATION FAILED' in r.stdout else 'not-refuted'
+            ok = ok and info['e1_false_postcondition'] == 'failed'
+        except Exception as ex:
+            info['e1_false_postcondition'] = 'error: %s' % ex; ok = False
+        finally:
+            shutil.rmtree(wd, ignore_errors=True)
+    return ok, info
 
 
 def main(argv):
@@ -105,7 +120,7 @@ def main(argv):
     except Exception as ex:
         print('UNDECIDED property=%s cannot read goals: %s' % (pid, ex)); return 2
     goals = [g for g in goals if tier == 'thorough' or g['tier'] == 'quick']
-    ok_canary, canary_info = canary(budget)
+    ok_canary, canary_info = canary(budget, with_e1=any(g['engine'] == 'e1' for g in goals))
     from . import par
     nproc = min(16, max(1, len(goals)))
     os.environ['LPV_JOBS'] = str(max(2, min(8, 32 // nproc)))
